@@ -186,7 +186,7 @@ impl Prop for C03 {
         tier.pick(600, 3 * 3600)
     }
     fn mandatory(&self, _t: Tier) -> Vec<String> {
-        let mut v: Vec<String> = ["rk_sweep_file", "noise:id1B:len1B", "noise:id2B:len1B", "noise:id1B:len2B", "noise:id2B:len2B", "noise:id2B:len3B", "noise:id2B:len4B", "sst:rich", "dims_wrong", "string_at_length_limit"].iter().map(|s| s.to_string()).collect();
+        let mut v: Vec<String> = ["rk_sweep_file", "noise:id1B:len1B", "noise:id2B:len1B", "noise:id1B:len2B", "noise:id2B:len2B", "noise:id2B:len3B", "noise:id2B:len4B", "sst:rich", "dims_wrong", "string_at_length_limit", "error:getting_data"].iter().map(|s| s.to_string()).collect();
         for k in ["BrtCellBlank", "BrtCellRk:RkInt", "BrtCellRk:RkIntDiv100", "BrtCellRk:RkFloat", "BrtCellRk:RkFloatDiv100", "BrtCellReal", "BrtCellBool", "BrtCellError", "BrtCellSt", "BrtCellIsst", "BrtFmlaNum", "BrtFmlaString", "BrtFmlaBool", "BrtFmlaError"] {
             v.push(format!("rec:{}", k));
         }
@@ -223,6 +223,12 @@ impl Prop for C03 {
             for sh in book.sheets.iter_mut() {
                 for (_, c) in sh.cells.iter_mut() {
                     serial += 1;
+                    if let Val::Err(_) = c.val {
+                        if serial % 4 == 0 {
+                            c.val = Val::Err(ErrKind::GettingData);
+                            out.feat("error:getting_data");
+                        }
+                    }
                     if let Val::Num(_) = c.val {
                         if rng.chance(2, 3) {
                             c.val = Val::Num(match rng.below(5) {
